@@ -348,7 +348,9 @@ def history_task(item):
 # closing seam / around a corner - only the elements whose aspect passes the filter take part (the finest space level)
 SHORT_T = {'quick': [('UnitSquare', (0., 2.0**-9), 0, 2, ''), ('UnitSquare', (0., 2.0**-11), 0, 3, ''), ('Circle', (0., 2.0**-9), 0, 3, ''),
                      # thin slabs at both ends of [0, 1] (time lag >> slab thickness); a custom space grid with very unequal close panels
-                     ('UnitSquare', (0., 1 / 32, 31 / 32, 1.), 0, 1, ''), ('UnitSquare', (0., 1 / 32), 0, 0, 'xs:uneq')],
+                     ('UnitSquare', (0., 1 / 32, 31 / 32, 1.), 0, 1, ''), ('UnitSquare', (0., 1 / 32), 0, 0, 'xs:uneq'),
+                     # a thin slab directly after a thick one, small panels at both ends of a long straight side
+                     ('PiSquare', (0., 0.5, 0.5 + 2.0**-9), 0, 0, 'xs:ends'), ('LShape', (0., 0.5, 0.5 + 2.0**-11), 0, 0, 'xs:ends')],
            'thorough': [(c, (0., 2.0**-9), 1, 2, '') for c in ('UnitSquare', 'LShape', 'UnitInterval')] + [('UnitSquare', (0., 2.0**-11), 0, 3, ''),
                         ('Circle', (0., 2.0**-9), 0, 3, ''), ('PiSquare', (0., 2.0**-9), 0, 2, ''), ('UnitSquare', (0., 2.0**-9, 1.), 0, 2, ''),
                         ('UnitSquare', (0., 1 / 32, 31 / 32, 1.), 1, 2, ''), ('Circle', (0., 1 / 32, 31 / 32, 1.), 0, 2, ''), ('UnitSquare', (0., 1 / 32), 0, 1, 'xs:uneq'),
